@@ -19,6 +19,9 @@ wavelength, minimum width, buffer, permitted cell numbers); nothing is read
 from the ``info`` string.  Where the documentation is silent or ambiguous the
 oracle demands *less* (listed in ``run`` as assumptions).
 """
+import itertools
+import json
+import os
 import warnings
 
 import numpy as np
@@ -1166,6 +1169,67 @@ def route_gopts(g):
 
 
 # ------------------------------------------------------------------- driver
+# ------------------------------------- warnings, one construction after another
+FN_WH = 'mc.checks.c16_gridding:case_warnhist'
+# R: sea surface reachable (becomes a node); U1, U2: cannot become a node
+# with the requested widths -> the documented warning has to be raised, every
+# time, not only for the first such mesh of the process.
+WH_BASE = {'frequency': 1.0, 'properties': [0.3, 1.0, 1e8],
+           'domain': [[-500, 500], [-500, 500], [-2000, -500]],
+           'min_width_limits': 100, 'stretching': [1.0, 1.3],
+           'center_on_edge': False, 'verb': 0}
+WH_OPS = {'R': dict(WH_BASE, center=(0, 0, -1000), seasurface=-850.0),
+          'U1': dict(WH_BASE, center=(0, 0, -1000), seasurface=-870.0),
+          'U2': dict(WH_BASE, center=(0, 0, -1150), seasurface=-960.0),
+          'N': dict(WH_BASE, center=(0, 0, -1000))}
+
+
+def case_warnhist(c):
+    import subprocess
+    import sys as _sys
+    root = os.path.dirname(os.path.dirname(os.path.dirname(
+        os.path.abspath(__file__))))
+    hist = [WH_OPS[o] for o in c['hist']]
+    env = dict(os.environ)
+    env.pop('PYTHONWARNINGS', None)
+    p = subprocess.run([_sys.executable, '-m', 'mc.warnchild',
+                        json.dumps(hist)], cwd=root, env=env,
+                       capture_output=True, text=True, timeout=600)
+    if p.returncode != 0:
+        return {'viol': [{'cls': 'construction-history-raised',
+                          'what': f"{c['hist']}: {p.stderr[-600:]}"}],
+                'compared': 1, 'nontrivial': True}
+    out = json.loads(p.stdout.strip().split('\n')[-1])
+    viol = []
+    tags = []
+    for i, (o, r) in enumerate(zip(c['hist'], out)):
+        if o == 'N':
+            tags.append('-')
+            continue
+        warned = any(SS_MSG in m for m in r['shown'])
+        tags.append('node' if r['node'] else 'warned' if warned else 'silent')
+        if not r['node'] and not warned:
+            viol.append({
+                'cls': 'seasurface-neither-node-nor-warning',
+                'what': f"history {c['hist']}, construction {i} ({o}): sea "
+                        'surface is no node of the mesh and no warning was '
+                        'shown under emg3d\'s own warning filters (shown: '
+                        f"{r['shown']})"})
+    return {'viol': viol, 'compared': len(out), 'transitions': len(out),
+            'nontrivial': 'silent' in tags or 'warned' in tags,
+            'outcome': tuple(tags)}
+
+
+def cases_warnhist(tier):
+    out = []
+    for n in (1, 2, 3):
+        for h in itertools.product(sorted(WH_OPS), repeat=n):
+            if n == 3 and tier == 'quick' and 'N' in h:
+                continue
+            out.append({'hist': list(h)})
+    return out
+
+
 def prepare(ctx):
     import emg3d.meshes           # imported once, inherited by the workers
     return emg3d.meshes
@@ -1237,3 +1301,13 @@ def run(ctx):
                          f'{len(EGO_OPTS)} option sets, then '
                          f'construct_mesh(**opts)',
                     time_cap=cap(1.0))
+    if ctx.wants('warning-histories'):
+        ctx.explore('warning-histories', FN_WH, cases_warnhist(ctx.tier),
+                    engine='E2',
+                    rule='all histories of length <= 3 over {reachable sea '
+                         'surface, two unreachable ones, none} of '
+                         'construct_mesh calls in ONE fresh interpreter '
+                         'under emg3d\'s own warning filters (quick: length '
+                         '3 without "none"): every construction is a node '
+                         'or shows the warning itself',
+                    time_cap=cap(1.0), chunksize=1)
